@@ -1,6 +1,7 @@
 import Pyc.Model.SchemaCheck
 import Pyc.Proofs.Codec
 import Pyc.Proofs.Typed
+import Pyc.Proofs.CustomCodec
 import Pyc.Generated.Schema
 
 /-! # C01 — decoding an encoded ledger object returns an equal object
@@ -11,12 +12,16 @@ import Pyc.Generated.Schema
   ranges, bytes, text, bool, `None`, rationals, lists, ordered sets with their tag flag, ordered unions, hash
   classes, enums, array / coded / map classes restored by the generic code, classes with their own codec as opaque
   primitives), decoding the encoding returns the value and re-encoding returns the bytes — with no bound on size or
-  nesting.  Its only hypothesis is the union side condition `WFS`, which `unionOK_coded` discharges for unions of
-  coded classes with distinct codes (the certificate and governance-action unions).
-Classes with a hand-written codec are opaque here: their own round trip is judged on the implementation. -/
+  nesting.  The side condition of an ordered union (every alternative before the typing one answers
+  `DeserializeException` on the value's image) is a premise of the typing rule `HasType.union`, per value;
+  `unionOK_coded` provides it for unions of coded classes with distinct codes (the certificate and governance-action
+  unions) and the executable check `typedB` discharges it for any concrete value by running those alternatives.
+Classes with a hand-written codec are opaque in the generic theorem; `Value` / `MultiAsset` / `Asset`,
+`TransactionOutput` and the decode-time normalisation of `TransactionBody` have their own models and theorems below
+(`Model/CustomCodec.lean`, `Proofs/CustomCodec.lean`). -/
 
 namespace Pyc.C01
-open Pyc Pyc.Codec Pyc.Cbor Pyc.Schema Pyc.Generated
+open Pyc Pyc.Codec Pyc.Cbor Pyc.Schema Pyc.Generated Pyc.Custom
 
 /-- the regenerated table is well-formed: class names unique, map keys unique per class, optional positional fields
 trailing, every referenced class defined -/
@@ -32,17 +37,31 @@ theorem certificate_union_unambiguous : codedUnionOK repoSchema (namedUnion "Cer
 theorem govaction_union_unambiguous : codedUnionOK repoSchema (namedUnion "GovAction") = true := by decide +kernel
 
 /-- **generic round trip** (any schema, any typed value, any size): decode ∘ encode = id -/
-theorem codec_roundtrip (S : List ClassDef) (hS : WFS S) (t : Ty) (v : Val) (h : HasType S t v) :
-    ∃ N, ∀ fuel, N ≤ fuel → fromPrim S fuel t (toPrim S v) = .ok v := rt_all hS h
+theorem codec_roundtrip (S : List ClassDef) (t : Ty) (v : Val) (h : HasType S t v) :
+    ∃ N, ∀ fuel, N ≤ fuel → fromPrim S fuel t (toPrim S v) = .ok v := rt_all h
 
 /-- … and serializing the decoded object again yields the same bytes -/
-theorem codec_reencode (S : List ClassDef) (hS : WFS S) (t : Ty) (v : Val) (h : HasType S t v) :
+theorem codec_reencode (S : List ClassDef) (t : Ty) (v : Val) (h : HasType S t v) :
     ∃ N, ∀ fuel, N ≤ fuel → ∃ v', fromPrim S fuel t (toPrim S v) = .ok v' ∧ encodeVal S v' = encodeVal S v := by
-  obtain ⟨N, hN⟩ := rt_all hS h
+  obtain ⟨N, hN⟩ := rt_all h
   exact ⟨N, fun fuel hf => ⟨v, hN fuel hf, rfl⟩⟩
 
+/-- the earlier formulation of the union side condition as ONE global hypothesis over all unions, all alternatives
+and all values (`WFS S`, a hypothesis of `codec_roundtrip` until this revision) — kept for the record -/
+def GlobalUnionCondition (S : List ClassDef) : Prop :=
+  ∀ (pre : List Ty) (t : Ty) (_post : List Ty) (v : Val), HasType S t v →
+    ∀ t' ∈ pre, ∃ N, ∀ fuel, N ≤ fuel → fromPrim S fuel t' (toPrim S v) = .deser
+
+/-- … it is unsatisfiable for every table (`Any` rejects nothing), so a theorem that assumes it says nothing: the side
+condition is now a premise of `HasType.union`, stated for the value and the union occurrence at hand -/
+theorem global_union_condition_unsatisfiable (S : List ClassDef) : ¬ GlobalUnionCondition S := by
+  intro h
+  obtain ⟨N, hN⟩ := h [.any] .int [] (.int 0) (HasType.int (by unfold IntOk; omega)) .any (by simp)
+  have := hN (N+1) (by omega)
+  simp [fromPrim] at this
+
 /-- unions of generic coded classes with pairwise distinct codes satisfy the union side condition, whatever the
-declaration order of the alternatives -/
+declaration order of the alternatives: this PROVIDES the premise of `HasType.union` for such unions -/
 theorem union_side_condition_coded (S : List ClassDef) (ts : List Ty) (ks : List Nat) (hc : CodedAlts S ts ks)
     (hd : ks.Nodup) (pre : List Ty) (t : Ty) (post : List Ty) (he : ts = pre ++ t :: post) (v : Val)
     (hv : HasType S t v) : ∀ t' ∈ pre, ∃ N, ∀ fuel, N ≤ fuel → fromPrim S fuel t' (toPrim S v) = .deser :=
@@ -118,6 +137,13 @@ theorem certificate_dispatch (pre : List Ty) (t : Ty) (post : List Ty) (he : cod
     ∀ t' ∈ pre, ∃ N, ∀ fuel, N ≤ fuel → fromPrim repoSchema fuel t' (toPrim repoSchema v) = .deser :=
   coded_dispatch "Certificate" certificate_coded_part pre t post he v hv
 
+/-- … so a value typed by one of the generic coded alternatives is typed by the union (ordered dispatch reaches it):
+the premise of `HasType.union` is provided by theorem, not assumed -/
+theorem coded_union_typed (n : String) (hok : codedPartOK n = true) (pre : List Ty) (t : Ty) (post : List Ty)
+    (he : codedPart n = pre ++ t :: post) (v : Val) (hv : HasType repoSchema t v) :
+    HasType repoSchema (.union (codedPart n)) v := by
+  rw [he]; exact HasType.union hv (coded_dispatch n hok pre t post he v hv)
+
 theorem govaction_dispatch (pre : List Ty) (t : Ty) (post : List Ty) (he : codedPart "GovAction" = pre ++ t :: post)
     (v : Val) (hv : HasType repoSchema t v) :
     ∀ t' ∈ pre, ∃ N, ∀ fuel, N ≤ fuel → fromPrim repoSchema fuel t' (toPrim repoSchema v) = .deser :=
@@ -135,6 +161,14 @@ def exCert : Val := .obj "StakeRegistrationConway" [.opaque (.array [.uint 0, .b
 
 example : HasType repoSchema (.cls "TransactionInput") exInput := typedB_sound _ 10 _ _ (by decide +kernel)
 example : HasType repoSchema (.union (codedPart "Certificate")) exCert := typedB_sound _ 10 _ _ (by decide +kernel)
+-- (the example above is typed THROUGH a union of the real table: the executable check runs the alternatives that precede
+-- `StakeRegistrationConway` on the image and sees each answer `DeserializeException`.  In the FULL certificate union the
+-- alternative `PoolRegistration` has a hand-written `from_primitive`, which the generic model carries as an opaque leaf
+-- that accepts every primitive: values of the alternatives declared after it are therefore typed at the coded part, not
+-- at the full union — a limit of the generic model, visible in the evidence as `outside_theorem_scope`.)
+-- an `Optional[int]` field type (`Union[int, None]`): `None` is typed by the second alternative because `int` rejects null
+example : HasType repoSchema (.union [.int, .none]) .none := typedB_sound _ 5 _ _ (by decide +kernel)
+example : HasType repoSchema (.union [.cls "Anchor", .none]) .none := typedB_sound _ 5 _ _ (by decide +kernel)
 example :
     (match fromPrim repoSchema 10 (.cls "TransactionInput") (toPrim repoSchema exInput) with
       | .ok (.obj n [.cb b, .int i]) => n == "TransactionInput" && b == List.replicate 32 7 && i == 4294967296
@@ -143,6 +177,220 @@ example :
     (match fromPrim repoSchema 50 (.union (codedPart "Certificate")) (toPrim repoSchema exCert) with
       | .ok (.obj n _) => n == "StakeRegistrationConway"
       | _ => false) = true := by decide +kernel
+
+
+/-! ## classes with a hand-written codec: `Value` / `MultiAsset` / `Asset`, `TransactionOutput`, and the decode-time
+normalisation of `TransactionBody` (models: `Model/CustomCodec.lean`, tied to /repo by `harness/checks/c01_custom.py`) -/
+
+/-- **`Value`: decode ∘ encode** for every well-formed value (`ValueOk`: 28-byte policy ids, names of at most 32 bytes,
+distinct keys; coin and quantities ANY integers — negative, zero, beyond 64 bits, where cbor2 switches to bignum tags):
+the result is the NORMALISED value (`normValue`: zero quantities and empty policies dropped, canonical order) —
+bare-integer and `[coin, multiasset]` forms alike -/
+theorem value_roundtrip (v : Value) (h : ValueOk v) : decValue (itemValue v) = .ok (normValue v) :=
+  decValue_itemValue v h
+
+/-- … at the byte level (`Value.from_cbor(v.to_cbor())`), for CBOR-representable sizes -/
+theorem value_roundtrip_bytes (v : Value) (h : ValueOk v) (hw : Cbor.WF (itemValue v)) :
+    decValueBytes (encValueBytes v) = .ok (normValue v) := decValueBytes_enc v h hw
+
+/-- Python `==` (`Value.__eq__` / `MultiAsset.__eq__` / `Asset.__eq__` compare the stored dicts; they do not
+normalise): the decoded value is `==` to the normalised original … -/
+theorem value_roundtrip_pyeq_normalised (v : Value) (hw : MultiAsset.WF v.ma) :
+    Value.eq (normValue v) ⟨v.coin, MultiAsset.normalize v.ma⟩ = true := value_eq_normalized v hw
+
+/-- … and `==` to the original itself exactly when the original stores no zero quantity and no empty policy -/
+theorem value_roundtrip_pyeq_iff (v : Value) (hw : MultiAsset.WF v.ma) :
+    Value.eq (normValue v) v = true ↔ MultiAsset.normalize v.ma = v.ma := value_eq_original_iff v hw
+
+/-- the statement "decode ∘ encode is the identity under `==` for every well-formed value" is FALSE of the code
+(kept as the goal; `value_roundtrip_pyeq_iff` is the exact region where it holds) -/
+def value_roundtrip_pyeq_goal : Prop :=
+  ∀ v : Value, ValueOk v → ∃ v', decValue (itemValue v) = .ok v' ∧ Value.eq v' v = true
+
+def exZeroQty : Value := ⟨5, [(List.replicate 28 1, [([110], 0)])]⟩
+
+theorem value_roundtrip_pyeq_counterexample : ¬ value_roundtrip_pyeq_goal := by
+  intro h
+  have hok : ValueOk exZeroQty := valueOkB_sound _ (by decide)
+  obtain ⟨v', h1, h2⟩ := h exZeroQty hok
+  rw [value_roundtrip exZeroQty hok] at h1
+  cases h1
+  revert h2
+  decide
+
+/-- **re-encoding the decoded value gives the same bytes** — for EVERY value (no hypothesis) -/
+theorem value_reencode (v : Value) : encValueBytes (normValue v) = encValueBytes v := by
+  unfold encValueBytes; rw [itemValue_normValue]
+
+/-- **`TransactionOutput`: decode ∘ encode** for every well-formed output whose datum is a hash or inline, not both
+(`NotBoth`): the decoded output equals the original in address, datum hash, inline datum and script, holds the
+normalised amount, and its `post_alonzo` flag is "flag set, no inline datum, no script".  `L` are the leaf codecs
+(address, inline datum, native script), assumed to restore what they wrote (`Leaves.Lawful`). -/
+theorem output_roundtrip {A D N : Type} (L : Leaves A D N) (hL : L.Lawful) (o : Output A D N) (h : OutputOk L o)
+    (hnb : NotBoth o) :
+    ∃ o', decOutput L (itemOutput L o) = .ok o' ∧
+      o'.address = o.address ∧ o'.amount = normValue o.amount ∧ o'.datumHash = o.datumHash ∧ o'.datum = o.datum ∧
+      o'.script = o.script ∧ o'.postAlonzo = (o.postAlonzo && o.datum.isNone && o.script.isNone) :=
+  ⟨decodedOutput o, decOutput_itemOutput L hL o h, decodedOutput_fields o hnb⟩
+
+/-- … for EVERY well-formed output, `NotBoth` or not: the result is `decodedOutput o` -/
+theorem output_roundtrip_general {A D N : Type} (L : Leaves A D N) (hL : L.Lawful) (o : Output A D N) (h : OutputOk L o) :
+    decOutput L (itemOutput L o) = .ok (decodedOutput o) := decOutput_itemOutput L hL o h
+
+/-- **the recorded finding KF-C01-post-alonzo-flag, as an exact condition**: the flag of the decoded output differs from
+the original flag iff the original carries an inline datum or a script while its flag is SET (the decoder recomputes the
+flag as "no inline datum and no script"; with the flag unset such an output round-trips exactly) -/
+theorem output_flag_exception_iff {A D N : Type} (L : Leaves A D N) (hL : L.Lawful) (o : Output A D N) (h : OutputOk L o)
+    (hnb : NotBoth o) :
+    ∃ o', decOutput L (itemOutput L o) = .ok o' ∧
+      (o'.postAlonzo ≠ o.postAlonzo ↔ (o.postAlonzo = true ∧ (o.datum.isSome = true ∨ o.script.isSome = true))) :=
+  ⟨decodedOutput o, decOutput_itemOutput L hL o h, decodedOutput_flag_ne_iff o hnb⟩
+
+/-- outside `NotBoth` (datum hash AND inline datum, which `TransactionOutput` does not refuse): the hash is written, the
+inline datum is lost -/
+theorem output_both_datums_drops_inline {A D N : Type} (o : Output A D N) (h : o.datumHash.isSome = true) :
+    (decodedOutput o).datum = Option.none := decodedOutput_both o h
+
+/-- the full statement "every field but `post_alonzo` survives, for every well-formed output" is FALSE of the code
+(goal kept; `output_roundtrip` is the partial result under `NotBoth`) -/
+def output_roundtrip_goal : Prop :=
+  ∀ (L : Leaves Bytes Nat Nat), L.Lawful → ∀ o : Output Bytes Nat Nat, OutputOk L o →
+    ∃ o', decOutput L (itemOutput L o) = .ok o' ∧ o'.datum = o.datum
+
+/-- concrete lawful leaves for the examples: an address is its bytes, a datum / native script a natural number -/
+def bytesLeaf : Leaf Bytes := ⟨fun b => .bytes b, fun i => match i with | .bytes b => .ok b | _ => .deser⟩
+def natLeaf : Leaf Nat := ⟨fun n => .uint n, fun i => match i with | .uint n => .ok n | _ => .deser⟩
+def exLeaves : Leaves Bytes Nat Nat := ⟨bytesLeaf, natLeaf, natLeaf⟩
+theorem exLeaves_lawful : exLeaves.Lawful := ⟨⟨fun _ => rfl⟩, ⟨fun _ => rfl⟩, ⟨fun _ => rfl⟩⟩
+
+def exAddr : Bytes := 0x61 :: List.replicate 28 9
+def exBoth : Output Bytes Nat Nat := ⟨exAddr, ⟨2000000, []⟩, some (List.replicate 32 7), some 42, Option.none, false⟩
+
+theorem output_roundtrip_counterexample : ¬ output_roundtrip_goal := by
+  intro h
+  have hok : OutputOk exLeaves exBoth := by
+    refine ⟨valueOkB_sound _ (by decide), ?_, ?_, ?_⟩
+    · intro hh e; cases e; decide
+    · intro d e; cases e; simp [exLeaves, natLeaf, Cbor.WF]
+    · intro s e; cases e
+  obtain ⟨o', h1, h2⟩ := h exLeaves exLeaves_lawful exBoth hok
+  rw [output_roundtrip_general exLeaves exLeaves_lawful exBoth hok] at h1
+  cases h1
+  revert h2
+  decide
+
+/-- **`TransactionBody`** has no `__post_init__` in this tree; what normalises a body is DECODING: a field annotated
+`Union[List[T], OrderedSet[T]]` returns a plain list for an untagged array (`bodyNorm`, driven by the field types of the
+regenerated table).  The normalisation is idempotent … -/
+theorem body_norm_idempotent (S : List ClassDef) (v : Val) : bodyNorm S (bodyNorm S v) = bodyNorm S v :=
+  bodyNorm_idem S v
+
+/-- (the name under which the task lists it) -/
+theorem body_postinit_idempotent (S : List ClassDef) (v : Val) : bodyNorm S (bodyNorm S v) = bodyNorm S v :=
+  bodyNorm_idem S v
+
+/-- … and **decode ∘ encode returns the normal form** of every body whose normal form is typed (`HasType`; the executable
+check `typedB` decides it per value, union side conditions included) -/
+theorem body_roundtrip_normalised (S : List ClassDef) (n : String) (v : Val) (h : HasType S (.cls n) (bodyNorm S v)) :
+    ∃ N, ∀ fuel, N ≤ fuel → fromPrim S fuel (.cls n) (toPrim S v) = .ok (bodyNorm S v) :=
+  decode_encode_bodyNorm S n v h
+
+/-- … in particular a body that is a fixed point of the normalisation is returned unchanged -/
+theorem body_roundtrip_fixed_point (S : List ClassDef) (n : String) (v : Val) (hfix : bodyNorm S v = v)
+    (h : HasType S (.cls n) v) : ∃ N, ∀ fuel, N ≤ fuel → fromPrim S fuel (.cls n) (toPrim S v) = .ok v := by
+  have := decode_encode_bodyNorm S n v (by rw [hfix]; exact h)
+  rw [hfix] at this
+  exact this
+
+/-- what the normalisation does to one field: nothing, or an untagged `OrderedSet` becomes the `list` of the same
+elements (equal under `OrderedSet.__eq__`, which compares `list(self)` with the other list) -/
+theorem body_norm_field (f : FieldDef) (v : Val) :
+    normField f v = v ∨ ∃ xs, v = .oset false xs ∧ normField f v = .list xs := normField_cases f v
+
+/-! non-vacuity of the custom-codec theorems -/
+
+/-- two policies with names whose length-first and bytewise orders differ, a zero quantity, an empty policy, a
+quantity at the top of the 64-bit range and one beyond it (bignum) -/
+def exValue : Value :=
+  ⟨1500000, [(List.replicate 28 2, [([98, 98], 7), ([97, 97, 97], 4294967296), ([99], 0)]),
+             (List.replicate 28 1, [([], 18446744073709551615), ([1], 3541774862152233910272)]),
+             (List.replicate 28 3, [])]⟩
+
+theorem exValue_ok : ValueOk exValue := valueOkB_sound _ (by decide +kernel)
+
+example : decValue (itemValue exValue) = .ok (normValue exValue) := value_roundtrip exValue exValue_ok
+-- the kernel evaluates encoder, CBOR decoder and typed restoration: two policies survive, in canonical order, the zero
+-- entry is gone, and re-encoding reproduces the bytes
+example :
+    (match decValueBytes (encValueBytes exValue) with
+      | .ok v => v.coin == 1500000 && v.ma.map (fun p => (p.1.head!, p.2.length)) == [(1, 2), (2, 2)] &&
+          Dict.getD (Dict.getD v.ma (List.replicate 28 1) []) [1] 0 == 3541774862152233910272 &&
+          encValueBytes v == encValueBytes exValue && !Value.eq v exValue &&
+          Value.eq v ⟨exValue.coin, MultiAsset.normalize exValue.ma⟩
+      | _ => false) = true := by decide +kernel
+example : ¬ (MultiAsset.normalize exValue.ma = exValue.ma) := by decide
+
+/-- a map-form output with an inline datum (flag unset): round-trips exactly but for the normalised amount -/
+def exInline : Output Bytes Nat Nat := ⟨exAddr, exValue, Option.none, some 42, Option.none, false⟩
+/-- … and the recorded exception: a script with the flag set -/
+def exFlag : Output Bytes Nat Nat := ⟨exAddr, ⟨2000000, []⟩, Option.none, Option.none, some (.plutus 2 [1, 2, 3]), true⟩
+
+theorem exInline_ok : OutputOk exLeaves exInline := by
+  refine ⟨exValue_ok, ?_, ?_, ?_⟩
+  · intro hh e; cases e
+  · intro d e; cases e; simp [exLeaves, natLeaf, Cbor.WF]
+  · intro s e; cases e
+
+example : ∃ o', decOutput exLeaves (itemOutput exLeaves exInline) = .ok o' ∧ o'.datum = some 42 ∧ o'.postAlonzo = false := by
+  obtain ⟨o', h1, _, _, _, h4, _, h6⟩ := output_roundtrip exLeaves exLeaves_lawful exInline exInline_ok (by decide)
+  exact ⟨o', h1, h4, h6⟩
+example :
+    (match decOutputBytes exLeaves (encOutputBytes exLeaves exInline) with
+      | .ok o => o.datum == some 42 && o.postAlonzo == false && o.datumHash == Option.none && o.address == exAddr &&
+          encOutputBytes exLeaves o == encOutputBytes exLeaves exInline
+      | _ => false) = true := by decide +kernel
+-- KF-C01-post-alonzo-flag: the concrete counterexample to flag preservation
+example : (decodedOutput exFlag).postAlonzo ≠ exFlag.postAlonzo := by decide
+example :
+    (match decOutputBytes exLeaves (encOutputBytes exLeaves exFlag) with
+      | .ok o => o.postAlonzo == false && encOutputBytes exLeaves o == encOutputBytes exLeaves exFlag
+      | _ => false) = true := by decide +kernel
+
+/-- a body of the REAL table, built from the table's own field list so that a new optional field does not disturb it:
+tagged inputs, no outputs, a fee, untagged required signers, every other field `None` -/
+def exBody : Val :=
+  match lookup repoSchema "TransactionBody" with
+  | some cd => .obj "TransactionBody" (cd.fields.map (fun f =>
+      if f.name == "inputs" then .oset true [exInput]
+      else if f.name == "outputs" then .opaque (.array [])
+      else if f.name == "fee" then .int 170000
+      else if f.name == "required_signers" then .oset false [.cb (List.replicate 28 5), .cb (List.replicate 28 6)]
+      else .none))
+  | Option.none => .none
+
+def fieldOf (name : String) (v : Val) : Val :=
+  match lookup repoSchema "TransactionBody", v with
+  | some cd, .obj _ fs => ((cd.fields.map (·.name)).zip fs).foldr (fun p acc => if p.1 == name then p.2 else acc) .none
+  | _, _ => .none
+
+-- the normal form is typed on the real table (so `body_roundtrip_normalised` applies) …
+example : HasType repoSchema (.cls "TransactionBody") (bodyNorm repoSchema exBody) :=
+  typedB_sound _ 30 _ _ (by decide +kernel)
+-- … the untagged required signers are normalised to a list, the tagged inputs stay a tagged set …
+example :
+    ((match fieldOf "required_signers" exBody with | .oset false xs => xs.length == 2 | _ => false) &&
+     (match fieldOf "required_signers" (bodyNorm repoSchema exBody) with | .list xs => xs.length == 2 | _ => false) &&
+     (match fieldOf "inputs" (bodyNorm repoSchema exBody) with | .oset true xs => xs.length == 1 | _ => false)) = true := by
+  decide +kernel
+-- … and the kernel evaluates the whole round trip: decoding the bytes returns the normal form, re-encoding the bytes
+example :
+    (match decodeAll (encodeVal repoSchema exBody) with
+      | some i => (match fromPrim repoSchema 30 (.cls "TransactionBody") i with
+          | .ok v' => encodeVal repoSchema v' == encodeVal repoSchema exBody &&
+              (match fieldOf "required_signers" v' with | .list xs => xs.length == 2 | _ => false) &&
+              (match fieldOf "inputs" v' with | .oset true xs => xs.length == 1 | _ => false)
+          | _ => false)
+      | Option.none => false) = true := by decide +kernel
 
 end Pyc.C01
 
@@ -161,3 +409,24 @@ end Pyc.C01
 #print axioms Pyc.C01.typed_check_sound
 #print axioms Pyc.C01.nodupB_sound
 #print axioms Pyc.C01.coded_dispatch
+#print axioms Pyc.C01.global_union_condition_unsatisfiable
+#print axioms Pyc.C01.coded_union_typed
+#print axioms Pyc.C01.value_roundtrip
+#print axioms Pyc.C01.value_roundtrip_bytes
+#print axioms Pyc.C01.value_roundtrip_pyeq_normalised
+#print axioms Pyc.C01.value_roundtrip_pyeq_iff
+#print axioms Pyc.C01.value_roundtrip_pyeq_counterexample
+#print axioms Pyc.C01.value_reencode
+#print axioms Pyc.C01.output_roundtrip
+#print axioms Pyc.C01.output_roundtrip_general
+#print axioms Pyc.C01.output_flag_exception_iff
+#print axioms Pyc.C01.output_both_datums_drops_inline
+#print axioms Pyc.C01.exLeaves_lawful
+#print axioms Pyc.C01.output_roundtrip_counterexample
+#print axioms Pyc.C01.body_norm_idempotent
+#print axioms Pyc.C01.body_postinit_idempotent
+#print axioms Pyc.C01.body_roundtrip_normalised
+#print axioms Pyc.C01.body_roundtrip_fixed_point
+#print axioms Pyc.C01.body_norm_field
+#print axioms Pyc.C01.exValue_ok
+#print axioms Pyc.C01.exInline_ok
